@@ -14,6 +14,8 @@ f_back / greenlet.parent walk.  B is also the replay of A's counterexamples.
 """
 from __future__ import annotations
 
+import os
+
 import sys
 import threading
 import types
